@@ -467,6 +467,29 @@ def check(ctx):
     except Unknown as err:
         ctx.undecided("C18.R7", f"to_open_api_3_0: guard of the type-splitting branch: {err}")
 
+    # ---------------- R9: enumerated values are kept
+    ctx.rule("C18.R9", "a converter never removes a value from `enum` (or changes `const`): in OpenAPI 3.0 `nullable: true` only widens `type`, the enumeration still decides - a null taken out of `enum` is rejected by the converted schema and accepted by the 2020-12 one", floor=3)
+    n9 = 0
+    for fi in model.funcs_in_module(VMOD):
+        if not fi.name.startswith("to_"):
+            continue
+        n9 += 1
+        fn9 = unroll_constant_loops(fi.node)
+        bad9 = None
+        for st in ast.walk(fn9):
+            if isinstance(st, ast.Assign) and any(key_of_subscript(t) == "enum" for t in st.targets):
+                v = st.value
+                filtered = any(isinstance(x, (ast.ListComp, ast.GeneratorExp, ast.SetComp)) and any(g.ifs for g in x.generators) for x in ast.walk(v)) or \
+                    any(isinstance(x, ast.Call) and dotted(x.func) == "filter" for x in ast.walk(v))
+                if filtered and "enum" in {k for k in reads_in(v)} | {k for k, _ in pops_in(v)}:
+                    bad9 = st
+            if isinstance(st, ast.Call) and isinstance(st.func, ast.Attribute) and st.func.attr in ("remove", "discard", "pop") and isinstance(st.func.value, ast.Subscript) and key_of_subscript(st.func.value) == "enum":
+                bad9 = st
+        ctx.check(bad9 is None, "C18.R9", f"{fi.qualname}:enum", None,
+                  f"`{short(bad9, 70) if bad9 is not None else ''}` filters the enumerated values: for Literal['low', 'high', None] the OpenAPI 3.0 schema becomes {{type: string, enum: [low, high], nullable: true}}, which rejects null (nullable does not add to enum), while the 2020-12 schema accepts it",
+                  fi, bad9 if bad9 is not None else fi.node, detail="enum rebuilt only from const / kept as it is")
+    ctx.require(n9 >= 3, f"dialect converters found: {n9}")
+
     # ---------------- R8: the converters work on a shallow copy
     ctx.rule("C18.R8", "a converter only rebinds keys of its shallow copy: the values (lists, dicts) are shared with the schema it was given - ultimately the user's schema(extra=...) - and are never modified in place (append / extend / update on `result[...]`): otherwise every generation changes the next one", floor=4)
     n8 = 0
@@ -538,6 +561,7 @@ def check(ctx):
 
 def mutants(mb):
     V = "apischema/json_schema/versions.py"
+    mb.add_text("null-taken-out-of-enum", V, '    if "examples" in result:\n', '    if result.get("nullable") and "enum" in result:\n        result["enum"] = [v for v in result["enum"] if v is not None]\n    if "examples" in result:\n', "C18.R9", "enum")
     mb.add_text("exclusive-bounds-kept-numeric", V, '        ("maximum", "exclusiveMaximum", min),\n', '', "C18.R1", "exclusiveMaximum(number)")
     mb.add_text("exclusive-bounds-dropped", V, "                result[bound], result[exclusive] = value, True\n", "                pass\n", "C18.R2", "exclusiveM")
     mb.add_text("isolate-ref-in-place", V, '        schema["allOf"] = [*schema.get("allOf", ()), {"$ref": schema.pop("$ref")}]\n', '        schema.setdefault("allOf", []).append({"$ref": schema.pop("$ref")})\n', "C18.R8", "isolate_ref")
